@@ -6,6 +6,7 @@ from collections import Counter
 from . import common as C
 from . import proggen as G
 from . import parsegen as P
+from . import scripted as S
 
 
 def case_line(layer, mode, steps, prog, stdin):
@@ -14,6 +15,11 @@ def case_line(layer, mode, steps, prog, stdin):
 
 def gen_cases(rng, n):
     cases = [(tag, prog, stdin) for tag, prog, stdin in G.templates(rng)]
+    cases += G.boundary_programs()
+    for _ in range(max(10, n // 4)):
+        cases.append(("scripted", S.scripted(rng), G.gen_stdin(rng)))
+    for _ in range(max(10, n // 8)):
+        cases.append(("branch", S.branch(rng), ""))
     for _ in range(n):
         cmds = G.gen_program(rng)
         noisy = rng.random() < 0.15
@@ -148,7 +154,7 @@ def run(prop, tier, seed):
     distinct = set()
     propfail, corr = [], []
     for (tag, prog, stdin), a, b, c in zip(cases, l0, l1, l2):
-        hist[tag if tag == "random" else "template"] += 1
+        hist[tag if tag in ("random", "scripted", "branch") else "template"] += 1
         nsteps = a.count(";;")
         hist["steps"] += nsteps
         end = a.rsplit("END:", 1)[-1] if "END:" in a else "?"
